@@ -358,8 +358,19 @@ impl<'c, W: WorldDriver> Session<'c, W> {
         pick(sim, self.sims.len())
     }
 
+    pub fn overflow_due_pub(&self, si: usize, a: usize, raw: Raw) -> Option<&'static str> {
+        self.overflow_due(si, a, raw)
+    }
+
+    pub fn model_remove_pub(&mut self, si: usize, a: usize, raw: Raw) -> Option<MEntity> {
+        self.touch_arch(si, a);
+        self.model_remove(si, a, raw, None)
+    }
+
     pub fn apply(&mut self, op: &Op) -> R {
         let narch = self.infos.len();
+        // failures of the step that follows a forged probe are C03's (the world must be unchanged)
+        self.only_tag = None;
         match *op {
             Op::Create { sim, arch, path } => {
                 let si = self.sim_ix(sim);
